@@ -1,3 +1,364 @@
-/-! # C07 — property theorems (stub: nothing stated yet) -/
+import SR.Proofs.ActorNetTrace
+/-!
+# C07 — message transport obeys the selected network semantics in every interleaving
+
+Property theorems only. Model: `SR/Actor/Net.lean` (transcription of src/actor/network.rs: the three
+representations, `send`, `on_deliver`, `on_drop`, `len`, `iter_all` as the `NetworkIter` state machine,
+`iter_deliverable`). An operation sequence `ops : List NetOp` is *valid* from `n₀` (`Net.run n₀ ops = some n`)
+when every delivery/drop is of an envelope `iter_deliverable` offers at that point — exactly what the actor
+model can do — and no operation panics. All theorems quantify over every initial canonical network and every
+valid sequence, i.e. every interleaving of sends, deliveries and drops.
+-/
 namespace SR.C07
+open SR.Actor
+
+def flowOf (e : Env) : Nat × Nat := (e.src, e.dst)
+
+/-- messages sent on flow `f`, in order -/
+def sentOn (f : Nat × Nat) (ops : List NetOp) : List Nat :=
+  ops.filterMap (fun op => match op with | .send e => if flowOf e = f then some e.msg else none | _ => none)
+
+/-- messages delivered or dropped on flow `f`, in order -/
+def removedOn (f : Nat × Nat) (ops : List NetOp) : List Nat :=
+  ops.filterMap (fun op => match op with
+    | .deliver e => if flowOf e = f then some e.msg else none
+    | .drop e => if flowOf e = f then some e.msg else none
+    | _ => none)
+
+def sentCount (e : Env) (ops : List NetOp) : Nat := (ops.filter (· = NetOp.send e)).length
+def deliveredCount (e : Env) (ops : List NetOp) : Nat := (ops.filter (· = NetOp.deliver e)).length
+def droppedCount (e : Env) (ops : List NetOp) : Nat := (ops.filter (· = NetOp.drop e)).length
+
+/-- the last send (`true`) or drop (`false`) of envelope `e` in `ops`, if any (deliveries do not count) -/
+def lastSD (e : Env) : List NetOp → Option Bool
+  | [] => none
+  | op :: ops =>
+    match lastSD e ops with
+    | some b => some b
+    | none =>
+      match op with
+      | .send e' => if e' = e then some true else none
+      | .drop e' => if e' = e then some false else none
+      | .deliver _ => none
+
+/-- the last delivered envelope -/
+def lastDelivered : List NetOp → Option Env
+  | [] => none
+  | op :: ops =>
+    match lastDelivered ops with
+    | some e => some e
+    | none => match op with | .deliver e => some e | _ => none
+
+/-! ## single steps (private helpers: one operation on one representation) -/
+
+private theorem queue_send (flows : List ((Nat × Nat) × List Nat)) (e : Env) (f : Nat × Nat) :
+    ((Net.ord flows).send e).queue f =
+      if f = flowOf e then (Net.ord flows).queue f ++ [e.msg] else (Net.ord flows).queue f := by
+  simp only [Net.send, Net.queue, alookup_ainsert, flowOf]
+  by_cases h : f = (e.src, e.dst) <;> simp [h]
+
+private theorem ord_remove {flows : List ((Nat × Nat) × List Nat)} {e : Env} {n1 : Net}
+    (hc : (Net.ord flows).Canon) (hv : e ∈ (Net.ord flows).iterDeliverable)
+    (h : (Net.ord flows).removeOne e = some n1) :
+    n1.isOrdered = true ∧ (Net.ord flows).queue (flowOf e) = e.msg :: n1.queue (flowOf e) ∧
+      ∀ f, f ≠ flowOf e → n1.queue f = (Net.ord flows).queue f := by
+  obtain ⟨q, hq, hh⟩ := (mem_iterDeliverable hc e).1 hv
+  obtain ⟨t, rfl⟩ := List.head?_eq_some_iff.1 hh
+  simp only [Net.removeOne, hq, List.idxOf?_cons, beq_self_eq_true, if_true] at h
+  by_cases hlen : (e.msg :: t).length > 1
+  · simp only [hlen, if_true, Option.some.injEq] at h
+    subst h
+    refine ⟨rfl, ?_, ?_⟩
+    · simp [Net.queue, flowOf, alookup_aset, hq]
+    · intro f hf
+      simp only [flowOf] at hf
+      simp [Net.queue, alookup_aset, hf]
+  · simp only [hlen, if_false, Option.some.injEq] at h
+    subst h
+    have ht : t = [] := by
+      cases t with
+      | nil => rfl
+      | cons a b => simp at hlen
+    subst ht
+    refine ⟨rfl, ?_, ?_⟩
+    · simp [Net.queue, flowOf, alookup_aremove, hq]
+    · intro f hf
+      simp only [flowOf] at hf
+      simp [Net.queue, alookup_aremove, hf]
+
+private theorem count_send (ms : List (Env × Nat)) (e' e : Env) :
+    ((Net.nondup ms).send e').count e = (Net.nondup ms).count e + if e = e' then 1 else 0 := by
+  simp only [Net.send, Net.count, alookup_ainsert]
+  by_cases h : e = e' <;> simp [h]
+
+private theorem nondup_remove {ms : List (Env × Nat)} {e' : Env} {n1 : Net}
+    (h : (Net.nondup ms).removeOne e' = some n1) (e : Env) :
+    (∃ ms1, n1 = Net.nondup ms1) ∧ (Net.nondup ms).count e = n1.count e + if e = e' then 1 else 0 := by
+  simp only [Net.removeOne] at h
+  cases hl : alookup e' ms with
+  | none => simp [hl] at h
+  | some c =>
+    simp only [hl] at h
+    by_cases h0 : c = 0
+    · simp [h0] at h
+    · by_cases h1 : c = 1
+      · simp [h1] at h; subst h
+        refine ⟨⟨_, rfl⟩, ?_⟩
+        simp only [Net.count, alookup_aremove]
+        by_cases he : e = e'
+        · subst he; simp [hl, h1]
+        · simp [he]
+      · simp [h0, h1] at h; subst h
+        refine ⟨⟨_, rfl⟩, ?_⟩
+        simp only [Net.count, alookup_aset]
+        by_cases he : e = e'
+        · subst he; simp [hl]; omega
+        · simp [he]
+
+/-! ## the trace invariants -/
+
+/-- **Ordered network.** On every flow, what was removed (delivered or dropped, in order) followed by what is
+still queued is what was initially queued followed by what was sent, in order. Hence deliveries on a flow
+are a prefix-respecting subsequence of the sends in send order, nothing is duplicated, and (with
+`C07_views`) only the head of a flow is deliverable. -/
+theorem C07_ordered (n₀ n : Net) (ops : List NetOp) (hc : n₀.Canon) (ho : n₀.isOrdered = true)
+    (h : Net.run n₀ ops = some n) (f : Nat × Nat) :
+    removedOn f ops ++ n.queue f = n₀.queue f ++ sentOn f ops := by
+  induction ops generalizing n₀ with
+  | nil => simp [Net.run] at h; subst h; simp [removedOn, sentOn]
+  | cons op ops ih =>
+    obtain ⟨hv, n1, h1, h2⟩ := run_cons.1 h
+    have hc1 := canon_apply hc h1
+    cases n₀ with
+    | dup _ _ => simp [Net.isOrdered] at ho
+    | nondup _ => simp [Net.isOrdered] at ho
+    | ord flows =>
+      cases op with
+      | send e =>
+        simp only [Net.apply, Option.some.injEq] at h1
+        subst h1
+        have := ih _ hc1 rfl h2
+        rw [queue_send] at this
+        by_cases hf : f = flowOf e
+        · subst hf
+          simpa [removedOn, sentOn, List.filterMap_cons] using this
+        · have hf' : ¬ flowOf e = f := fun e' => hf e'.symm
+          simpa [removedOn, sentOn, List.filterMap_cons, hf, hf'] using this
+      | deliver e =>
+        simp only [Net.valid, decide_eq_true_eq] at hv
+        simp only [Net.apply, Net.onDeliver] at h1
+        obtain ⟨ho1, hq, hother⟩ := ord_remove hc hv h1
+        have := ih _ hc1 ho1 h2
+        by_cases hf : f = flowOf e
+        · subst hf
+          rw [hq]
+          simpa [removedOn, sentOn, List.filterMap_cons] using this
+        · have hf' : ¬ flowOf e = f := fun e' => hf e'.symm
+          rw [hother f hf] at this
+          simpa [removedOn, sentOn, List.filterMap_cons, hf'] using this
+      | drop e =>
+        simp only [Net.valid, decide_eq_true_eq] at hv
+        simp only [Net.apply, Net.onDrop] at h1
+        obtain ⟨ho1, hq, hother⟩ := ord_remove hc hv h1
+        have := ih _ hc1 ho1 h2
+        by_cases hf : f = flowOf e
+        · subst hf
+          rw [hq]
+          simpa [removedOn, sentOn, List.filterMap_cons] using this
+        · have hf' : ¬ flowOf e = f := fun e' => hf e'.symm
+          rw [hother f hf] at this
+          simpa [removedOn, sentOn, List.filterMap_cons, hf'] using this
+
+/-- **Non-duplicating network.** Copies are conserved: every delivery and every drop consumes exactly one
+copy, so each sent (or initially present) copy is delivered at most once. -/
+theorem C07_nondup (ms₀ : List (Env × Nat)) (n : Net) (ops : List NetOp)
+    (h : Net.run (Net.nondup ms₀) ops = some n) (e : Env) :
+    n.count e + deliveredCount e ops + droppedCount e ops = (Net.nondup ms₀).count e + sentCount e ops := by
+  induction ops generalizing ms₀ with
+  | nil => simp [Net.run] at h; subst h; simp [deliveredCount, droppedCount, sentCount]
+  | cons op ops ih =>
+    obtain ⟨_, n1, h1, h2⟩ := run_cons.1 h
+    cases op with
+    | send e' =>
+      simp only [Net.apply, Option.some.injEq] at h1
+      subst h1
+      have := ih _ h2
+      have hs := count_send ms₀ e' e
+      simp only [Net.send] at hs
+      rw [hs] at this
+      simp only [deliveredCount, droppedCount, sentCount, List.filter_cons] at this ⊢
+      by_cases he : e = e'
+      · subst he; simp at this ⊢; omega
+      · have : ¬ e' = e := fun x => he x.symm
+        simp_all
+    | deliver e' =>
+      simp only [Net.apply, Net.onDeliver] at h1
+      obtain ⟨⟨ms1, rfl⟩, hcount⟩ := nondup_remove h1 e
+      have := ih _ h2
+      simp only [deliveredCount, droppedCount, sentCount, List.filter_cons] at this ⊢
+      by_cases he : e = e'
+      · subst he; simp at this hcount ⊢; omega
+      · have : ¬ e' = e := fun x => he x.symm
+        simp_all
+    | drop e' =>
+      simp only [Net.apply, Net.onDrop] at h1
+      obtain ⟨⟨ms1, rfl⟩, hcount⟩ := nondup_remove h1 e
+      have := ih _ h2
+      simp only [deliveredCount, droppedCount, sentCount, List.filter_cons] at this ⊢
+      by_cases he : e = e'
+      · subst he; simp at this hcount ⊢; omega
+      · have : ¬ e' = e := fun x => he x.symm
+        simp_all
+
+/-- **Duplicating network.** An envelope is in flight iff its last send-or-drop is a send, or it was
+initially present and was neither sent nor dropped: deliveries never remove (redelivery is possible), a
+dropped envelope is gone until it is sent again. -/
+theorem C07_dup (set₀ : List Env) (last₀ : Option Env) (n : Net) (ops : List NetOp)
+    (h : Net.run (Net.dup set₀ last₀) ops = some n) (e : Env) :
+    e ∈ n.contents ↔ (lastSD e ops = some true ∨ (lastSD e ops = none ∧ e ∈ set₀)) := by
+  induction ops generalizing set₀ last₀ with
+  | nil => simp [Net.run] at h; subst h; simp [lastSD, Net.contents]
+  | cons op ops ih =>
+    obtain ⟨_, n1, h1, h2⟩ := run_cons.1 h
+    cases op with
+    | send e' =>
+      simp only [Net.apply, Net.send, Option.some.injEq] at h1
+      subst h1
+      rw [ih _ _ h2, mem_sins]
+      cases hl : lastSD e ops with
+      | some b => simp [lastSD, hl]
+      | none =>
+        by_cases he : e' = e
+        · simp [lastSD, hl, he]
+        · have : ¬ e = e' := fun x => he x.symm
+          simp [lastSD, hl, he, this]
+    | deliver e' =>
+      simp only [Net.apply, Net.onDeliver, Option.some.injEq] at h1
+      subst h1
+      rw [ih _ _ h2]
+      cases hl : lastSD e ops <;> simp [lastSD, hl]
+    | drop e' =>
+      simp only [Net.apply, Net.onDrop, Option.some.injEq] at h1
+      subst h1
+      rw [ih _ _ h2, mem_srem]
+      cases hl : lastSD e ops with
+      | some b => simp [lastSD, hl]
+      | none =>
+        by_cases he : e' = e
+        · simp [lastSD, hl, he]
+        · have : ¬ e = e' := fun x => he x.symm
+          simp [lastSD, hl, he, this]
+
+/-- the duplicating network remembers the last delivered envelope -/
+theorem C07_dup_last (set₀ : List Env) (last₀ : Option Env) (n : Net) (ops : List NetOp)
+    (h : Net.run (Net.dup set₀ last₀) ops = some n) :
+    ∃ set, n = Net.dup set ((lastDelivered ops).or last₀) := by
+  induction ops generalizing set₀ last₀ with
+  | nil => simp [Net.run] at h; subst h; exact ⟨set₀, by simp [lastDelivered]⟩
+  | cons op ops ih =>
+    obtain ⟨_, n1, h1, h2⟩ := run_cons.1 h
+    cases op with
+    | send e' =>
+      simp only [Net.apply, Net.send, Option.some.injEq] at h1; subst h1
+      obtain ⟨s, hs⟩ := ih _ _ h2
+      refine ⟨s, ?_⟩
+      rw [hs]; cases hl : lastDelivered ops <;> simp [lastDelivered, hl]
+    | deliver e' =>
+      simp only [Net.apply, Net.onDeliver, Option.some.injEq] at h1; subst h1
+      obtain ⟨s, hs⟩ := ih _ _ h2
+      refine ⟨s, ?_⟩
+      rw [hs]; cases hl : lastDelivered ops <;> simp [lastDelivered, hl]
+    | drop e' =>
+      simp only [Net.apply, Net.onDrop, Option.some.injEq] at h1; subst h1
+      obtain ⟨s, hs⟩ := ih _ _ h2
+      refine ⟨s, ?_⟩
+      rw [hs]; cases hl : lastDelivered ops <;> simp [lastDelivered, hl]
+
+/-- Canonical form (flows never hold an empty queue, multiset counts are ≥ 1, keys are distinct) holds for
+every network built by the constructors and is preserved by every operation sequence. -/
+theorem C07_canonical :
+    (Net.dup [] none).Canon ∧ (Net.nondup []).Canon ∧ (Net.ord []).Canon ∧
+    (∀ (n : Net) (e : Env), n.Canon → (n.send e).Canon) ∧
+    (∀ (n₀ n : Net) (ops : List NetOp), n₀.Canon → Net.run n₀ ops = some n → n.Canon) := by
+  refine ⟨by simp [Net.Canon], by simp [Net.Canon], by simp [Net.Canon], ?_, ?_⟩
+  · intro n e hc; exact canon_send hc e
+  · intro n₀ n ops hc h; exact canon_run hc h
+
+/-- `len`, `iter_all` (the `NetworkIter` state machine run to exhaustion) and `iter_deliverable` agree with the
+contents: `iter_all` yields exactly the envelopes in flight with multiplicity, `len` is their number,
+`iter_deliverable` yields each deliverable envelope (present / a copy left / head of its flow) exactly once. -/
+theorem C07_views (n : Net) (hc : n.Canon) :
+    n.iterAll = n.contents ∧ n.iterAll.Perm n.contents ∧ n.len = n.contents.length ∧
+    (∀ e, e ∈ n.iterDeliverable ↔ n.isHead e) ∧ n.iterDeliverable.Nodup := by
+  refine ⟨iterAll_eq_contents hc, by rw [iterAll_eq_contents hc], len_eq_contents_length n,
+    mem_iterDeliverable hc, ?_⟩
+  cases n with
+  | dup set last => exact hc
+  | nondup ms => exact hc.2
+  | ord flows =>
+    simp only [Net.iterDeliverable]
+    have hk := hc.2
+    clear hc
+    induction flows with
+    | nil => simp
+    | cons p fl ih =>
+      simp only [List.map_cons, List.nodup_cons] at hk
+      rw [List.filterMap_cons]
+      cases hh : p.2.head? with
+      | none => simpa [hh] using ih hk.2
+      | some m =>
+        simp only [hh, Option.map_some]
+        refine List.nodup_cons.2 ⟨?_, ih hk.2⟩
+        intro hmem
+        obtain ⟨p', hp', he⟩ := List.mem_filterMap.1 hmem
+        cases hh' : p'.2.head? with
+        | none => simp [hh'] at he
+        | some m' =>
+          simp [hh'] at he
+          apply hk.1
+          refine List.mem_map.2 ⟨p', hp', ?_⟩
+          exact Prod.ext he.1 he.2.1
+
+/-- a delivery (or a drop) the model admits is of an envelope that is in flight -/
+theorem C07_deliver_only_if_present (n : Net) (hc : n.Canon) (e : Env)
+    (hv : n.valid (.deliver e) = true ∨ n.valid (.drop e) = true) : e ∈ n.contents := by
+  have hv : e ∈ n.iterDeliverable := by
+    rcases hv with h | h <;> simpa [Net.valid] using h
+  have hh := (mem_iterDeliverable hc e).1 hv
+  cases n with
+  | dup set last => exact hh
+  | nondup ms =>
+    obtain ⟨c, hl⟩ := hh
+    have hm := alookup_mem hl
+    have := hc.1 _ hm
+    simp only [Net.contents, List.mem_flatMap]
+    refine ⟨(e, c), hm, ?_⟩
+    have h1 : 1 ≤ c := by simpa using this
+    simp [List.mem_replicate]; omega
+  | ord flows =>
+    obtain ⟨q, hl, hq⟩ := hh
+    have hm := alookup_mem hl
+    obtain ⟨t, rfl⟩ := List.head?_eq_some_iff.1 hq
+    simp only [Net.contents, List.mem_flatMap]
+    exact ⟨_, hm, by simp⟩
+
+/-- every network the actor model can reach from a constructor-built one is canonical, so the three views
+agree with the contents in every reachable network state -/
+theorem C07_views_reachable (n₀ n : Net) (ops : List NetOp) (hc : n₀.Canon) (h : Net.run n₀ ops = some n) :
+    n.iterAll = n.contents ∧ n.len = n.contents.length ∧ (∀ e, e ∈ n.iterDeliverable ↔ n.isHead e) := by
+  have := C07_views n (canon_run hc h)
+  exact ⟨this.1, this.2.2.1, this.2.2.2.1⟩
+
+/-! ## the hypotheses are satisfiable: a concrete non-trivial run on each kind -/
+
+example : Net.run (Net.ord []) [.send ⟨0, 1, 7⟩, .send ⟨0, 1, 8⟩, .deliver ⟨0, 1, 7⟩, .send ⟨0, 1, 7⟩, .drop ⟨0, 1, 8⟩]
+    = some (Net.ord [((0, 1), [7])]) := by decide
+example : Net.run (Net.ord []) [.send ⟨0, 1, 7⟩, .send ⟨0, 1, 8⟩, .deliver ⟨0, 1, 8⟩] = none := by decide
+example : Net.run (Net.nondup []) [.send ⟨0, 1, 7⟩, .send ⟨0, 1, 7⟩, .deliver ⟨0, 1, 7⟩]
+    = some (Net.nondup [(⟨0, 1, 7⟩, 1)]) := by decide
+example : Net.run (Net.dup [] none) [.send ⟨0, 1, 7⟩, .deliver ⟨0, 1, 7⟩, .deliver ⟨0, 1, 7⟩, .drop ⟨0, 1, 7⟩]
+    = some (Net.dup [] (some ⟨0, 1, 7⟩)) := by decide
+example : (Net.ord [((0, 1), [7, 8]), ((2, 1), [7])]).iterAll = [⟨0, 1, 7⟩, ⟨0, 1, 8⟩, ⟨2, 1, 7⟩] := by decide
+example : (Net.nondup [(⟨0, 1, 7⟩, 2)]).iterAll = [⟨0, 1, 7⟩, ⟨0, 1, 7⟩] := by decide
+
 end SR.C07
